@@ -27,7 +27,7 @@ class GlencoeReader(TextToModel):
             data = json.load(file)
             features_info = data["features"]
             root_node = data["tree"]
-            constraints_info = data["constraints"]
+            constraints_info = data.get("constraints", {})  # no section: no constraints
             root_feature = self._parse_tree(None, root_node, features_info)
             constraints = self._parse_constraints(constraints_info, features_info)
             return FeatureModel(root_feature, constraints)
